@@ -88,13 +88,46 @@ def harness_et(eng, ctx):
     sr.compute_recession_curve = spy
     out = io.StringIO()
     del ys.dumped[:]
+    sy_type, t_type = ctx.get('ptypes', ('spline', 'spline'))
+    import yaml as _yaml
+    pl = _yaml.safe_load(sim_common.SPLINE_PARAMS_LOCAL)
+    pp = _yaml.safe_load(sim_common.PEATCLSM_PARAMS)
+    mixed = {'specific_yield': (pl if sy_type == 'spline' else pp)['specific_yield'],
+             'transmissivity': (pl if t_type == 'spline' else pp)['transmissivity']}
+    params_text = _yaml.dump(mixed)
+    saved_sy = sr.specific_yield_mod
+
+    class _OpaqueSy:
+        # the PEATCLSM specific-yield table is C16's business and costly to build: opaque here
+        @staticmethod
+        def create_specific_yield_function(p):
+            return ('specific yield', p.get('type'))
+    if sy_type == 'peatclsm':
+        sr.specific_yield_mod = _OpaqueSy
     try:
-        sr.dump_simulated_recession(conn, io.StringIO(sim_common.SPLINE_PARAMS_LOCAL), out, ctx['observations'])
+        sr.dump_simulated_recession(conn, io.StringIO(params_text), out, ctx['observations'])
     except Exception as e:
         eng.fail_exception(e)
         return
     finally:
         sr.compute_recession_curve = original
+        sr.specific_yield_mod = saved_sy
+    # transmissivity handed over must be in m2/d: the PEATCLSM formula gives m2/s
+    Tgot = captured.get('transmissivity_m2_d')
+    tmod = mods['transmissivity']
+    if t_type == 'spline':
+        eng.prove(isinstance(Tgot, tmod.SplineTransmissivity), 'C18: spline transmissivity (m2/d) is used as it is',
+                  detail='got %r' % (Tgot,))
+    else:
+        ref = tmod.PeatclsmTransmissivity(**{k: v for k, v in libstubs._lift_floats(pp['transmissivity']).items() if k != 'type'})
+        zp = Fraction(90)
+        try:
+            def sc(v):
+                return v._d[0] if isinstance(v, nplite.ndarray) else v
+            eng.prove(sc(Tgot(zp)) == sc(ref(zp)) * 86400, 'C18: PEATCLSM transmissivity (m2/s) is converted to m2/d',
+                      detail='specific yield %s, transmissivity %s' % (sy_type, t_type))
+        except Exception as e:
+            eng.fail_exception(e, label='C18: transmissivity handed to the curve cannot be evaluated')
     # ET: average over every time step inside the recession intervals of the master curve
     cells = []
     for ri in conn.db.tables['recession_interval'].rows:
@@ -205,6 +238,9 @@ class C18(Check):
         self.outside = ['QUADPACK accuracy', 'PEATCLSM transmissivity in the command (unit hack m2/s -> m2/d is exercised only by witness replay in the thorough tier)']
         exp = symx.explore(harness_curve, {'n': n}, name='compute_recession_curve[n=%d]' % n, engine_kw={'query_timeout_ms': 60000})
         self.absorb(exp, need_paths=4)
+        for pt in (('spline', 'peatclsm'), ('peatclsm', 'spline'), ('peatclsm', 'peatclsm')):
+            exp = symx.explore(harness_et, {'observations': False, 'ptypes': pt}, name='simulate_recession[sy=%s,T=%s]' % pt, workers=1)
+            self.absorb(exp, need_paths=1)
         for obs in (False, True):
             exp = symx.explore(harness_et, {'observations': obs}, name='simulate_recession[observations=%s]' % obs, workers=1)
             self.absorb(exp, need_paths=1)
@@ -217,6 +253,8 @@ class C18(Check):
     def replay(self, failure):
         h = failure['harness']
         info = {'expected': failure.get('detail'), 'label': failure.get('label')}
+        if h.startswith('simulate_recession[sy='):
+            return replay_units(h, info)
         if h.startswith('simulate_recession'):
             ok, inf = replay_et('True' in h)
             inf.update(info)
@@ -231,6 +269,45 @@ class C18(Check):
             return not ok, inf
         # function level: concrete evaluation of the real function against quadrature
         return replay_curve(failure, info)
+
+
+def replay_units(h, info):
+    """Real simulate_recession with a mixed parameter file: the transmissivity function it
+    hands to compute_recession_curve must return m2/d."""
+    import yaml
+    sy_type, t_type = h.split('sy=')[1].split(',')[0], h.split('T=')[1].rstrip(']')
+    pl = yaml.safe_load(sim_common.SPLINE_PARAMS_LOCAL)
+    pp = yaml.safe_load(sim_common.PEATCLSM_PARAMS)
+    mixed = {'specific_yield': (pl if sy_type == 'spline' else pp)['specific_yield'],
+             'transmissivity': (pl if t_type == 'spline' else pp)['transmissivity']}
+    real = loader.real_module('spowtd.simulate_recession')
+    rtm = loader.real_module('spowtd.transmissivity')
+    seen = {}
+    orig = real.compute_recession_curve
+
+    def spy(**kw):
+        seen.update(kw)
+        raise KeyboardInterrupt
+    real.compute_recession_curve = spy
+    rr = sim_common.real_workflow_run()
+    try:
+        try:
+            rr.simulate('recession', yaml.dump(mixed))
+        except KeyboardInterrupt:
+            pass
+    finally:
+        real.compute_recession_curve = orig
+        rr.close()
+    T = seen.get('transmissivity_m2_d')
+    if T is None:
+        info['observed'] = 'compute_recession_curve not reached'
+        return False, info
+    z = 90.0
+    got = float(T(z))
+    ref = rtm.create_transmissivity_function(dict(mixed['transmissivity']))
+    want = float(ref(z)) * (86400 if t_type == 'peatclsm' else 1)
+    info['observed'] = {'T_handed_over(90 mm)': got, 'expected_m2_d': want}
+    return abs(got - want) > 1e-9 * max(1.0, abs(want)), info
 
 
 def replay_curve(failure, info):
